@@ -60,7 +60,8 @@ char *strchr (const char *s, int c) {
   __CPROVER_assert(SAME(s, g_code) && OFF(s) >= 0 && OFF(s) <= g_code_len, "strchr on the source text");
   if (nondet_bool()) return NULL;
   long k = nondet_long();
-  __CPROVER_assume(k >= 0 && OFF(s) + k <= g_code_len && s[k] == (char)c);   /* never beyond the first NUL */
+  __CPROVER_assume(k >= 0 && k <= g_code_len - OFF(s));   /* never beyond the first NUL */
+  __CPROVER_assume(s[k] == (char)c);
   return (char *)s + k;
 }
 OrcOpcodeSet g_sys_set;
@@ -227,8 +228,15 @@ __CPROVER_ensures(__CPROVER_return_value == 0 ==> parser->init_function == NULL)
 /* .function: previous program sanity-checked, new program created and appended */
 static void orc_parse_sanity_check (OrcParser *parser, OrcProgram *program)
 REQ_PARSER(parser) __CPROVER_requires(PROGRAM_OK(program))
+#ifdef API_OPAQUE
+__CPROVER_assigns(parser->errors.items, parser->errors.n_items, parser->errors.n_items_alloc, parser->error_program)
+#else
 __CPROVER_assigns(parser->errors.items, parser->errors.n_items, parser->errors.n_items_alloc, parser->error_program, __CPROVER_object_whole(program); parser->errors.items != NULL: __CPROVER_object_whole(parser->errors.items))
-ENS_PARSER(parser) __CPROVER_ensures(PROGRAM_OK(program));
+#endif
+__CPROVER_ensures(parser->errors.n_items >= __CPROVER_old(parser->errors.n_items))
+__CPROVER_ensures(parser->errors.n_items_alloc >= parser->errors.n_items && parser->errors.n_items_alloc <= 1000032)
+__CPROVER_ensures(__CPROVER_is_fresh(parser->errors.items, sizeof(void *) * (parser->errors.n_items_alloc > 0 ? parser->errors.n_items_alloc : 1)))
+__CPROVER_ensures(PROGRAM_OK(program));
 
 static int orc_parse_handle_function (OrcParser *parser, const OrcLine *line)
 REQ_BUF REQ_PARSER(parser) REQ_HLINE(line)
@@ -263,10 +271,20 @@ static OrcParser *mk_parser(void) {
 }
 static OrcLine *mk_tok_line(void) {
   OrcLine *l = mk_line();
-  __CPROVER_assume(l->n_tokens >= 1 && l->n_tokens <= ORC_LINE_MAX_TOKENS);
+#ifndef TOKMAX
+#define TOKMAX ORC_LINE_MAX_TOKENS
+#endif
+  __CPROVER_assume(l->n_tokens >= 1 && l->n_tokens <= TOKMAX);
   for (int j = 0; j < ORC_LINE_MAX_TOKENS; j++) {
+#ifdef TOK_ALIAS
+    /* all token pointers alias one arbitrary in-buffer position: every function that receives a token here is a stub whose
+     * behaviour depends only on the pointer being readable, so any run with distinct tokens is matched by an aliased run */
+    static long o_alias = -1; if (o_alias < 0) { o_alias = nondet_long(); __CPROVER_assume(o_alias >= 0 && o_alias <= OFF(l->end)); }
+    l->tokens[j] = (char *)l->end - o_alias;
+#else
     long o = nondet_long(); __CPROVER_assume(o >= 0 && o <= OFF(l->end));
     l->tokens[j] = (char *)l->end - o;
+#endif
   }
   return l;
 }
